@@ -395,3 +395,37 @@ def register(ex):
              start_rule("DecodingStrategy.pre_decoder_hook"))
     ex.probe("beamStartFromEnvRule", "Bool", "true", "decoding.py:BeamSearch.pre_decoder_hook  `action = env.select_start_nodes(td, num_starts=self.beam_width)` (the environment's rule, not the generic helper)",
              start_rule("BeamSearch.pre_decoder_hook"))
+
+    # ---- AttentionModelPolicy.__init__: decoding options are passed through to the decoding machinery unchanged --------------------
+    AMP = "rl4co/models/zoo/am/policy.py"
+
+    def am_passthrough():
+        f = fn(AMP, "AttentionModelPolicy.__init__")
+        if f is None:
+            return None
+        names = ("mask_logits", "temperature", "tanh_clipping")
+        # (i) none of them is re-assigned in the constructor body
+        for n in ast.walk(f):
+            targets = []
+            if isinstance(n, ast.Assign):
+                targets = n.targets
+            elif isinstance(n, (ast.AugAssign, ast.AnnAssign)):
+                targets = [n.target]
+            for t in targets:
+                for m in ast.walk(t):
+                    if isinstance(m, ast.Name) and m.id in names:
+                        return "false"
+        # (ii) each is handed on as itself in the (single) call that forwards it
+        seen = {}
+        for n in ast.walk(f):
+            if isinstance(n, ast.Call):
+                for k in n.keywords:
+                    if k.arg in names:
+                        seen.setdefault(k.arg, []).append(ex.norm(k.value) == k.arg)
+        if set(seen) != set(names):
+            return None
+        return lean_bool(all(all(v) for v in seen.values()))
+
+    ex.probe("amCtorDecodingArgsPassedThrough", "Bool", "true",
+             "am/policy.py:AttentionModelPolicy.__init__  `mask_logits=mask_logits, temperature=temperature, tanh_clipping=tanh_clipping` handed on unchanged (no re-assignment, e.g. no `and mask_inner`)",
+             am_passthrough)
